@@ -52,8 +52,12 @@ pub fn run(args: &Args, out: &mut dyn Write) -> Stats {
             }
         } else {
             match g.r.below(100) {
-                0..=59 => g.k2_sized(None),
-                60..=84 => g.k5(None),
+                0..=49 => g.k2_sized(None),
+                50..=74 => g.k5(None),
+                // what the server emits is mostly a re-encoding of what it decoded from the upstream:
+                // byte strings through decoder -> encoder -> decoder (incl. names assembled through
+                // pointers up to and beyond the 255-octet limit)
+                75..=87 => g.k1(None),
                 _ => g.k8(),
             }
         };
